@@ -9,11 +9,17 @@ package main
 import (
 	"bufio"
 	"fmt"
+	"io"
+	"log"
 	"math/rand"
 	"os"
 	"strconv"
 	"strings"
+
+	raft "go.etcd.io/raft/v3"
 )
+
+func init() { raft.SetLogger(&raft.DefaultLogger{Logger: log.New(io.Discard, "", 0)}) }
 
 var out *bufio.Writer
 
@@ -72,6 +78,12 @@ func replayLine(line string) {
 	switch f[0] {
 	case "MC", "JC", "MV", "JV":
 		replayQuorum(f)
+	case "CC":
+		replayCC(f)
+	case "IF":
+		replayIF(f)
+	case "ST":
+		replayST(f)
 	default:
 		fmt.Fprintf(out, "# cannot replay tag %s\n", f[0])
 	}
